@@ -782,6 +782,7 @@ func genC06(r *rng, tier string, emit func(string)) {
 	c06rGen(r, tier, emit) // Conn.Read buffering and handshake reassembly (Model.ConnRead)
 	c06oGen(r, tier, emit) // configuration corners: VerifyPeerCertificate, GetConfigForClient, ALPN, DynamicRecordSizingDisabled
 	c06iGen(r, tier, emit) // certificates issued by an intermediate CA, every way of supplying the chain (c06inter.go)
+	c06kGen(r, tier, emit) // key types of the certificates in the server's slots and of the client certificate (c06keytype.go)
 }
 
 type keyLog struct {
